@@ -30,23 +30,30 @@ func init() {
 			"the following two return the same value without calling it (in half of the cases a request whose id function fails comes first: it must return that error and leave the reset pending); the structural monitor is clean against the model of time A and the database accepts further transactions. " +
 			"concurrent cases (race detector): a mutator takes snapshots and restores them (hook sleeps of 0-3 ms between the persist / close / rename / reopen steps), 2 writers rewrite the whole database into stamped state(g), 6 readers verify in every read transaction that the entire content equals state(g) of one generation (every other one keeps the transaction open for up to 0.6 ms and then asks Db.RootBucket(tx) for the root bucket, as the migration manager does), " +
 			"a snapshotter calls Db.Snapshot(path) in a loop next to the restores and opens every snapshot file as a database of its own: it must hold state(g) of one generation; bounded progress: if no client completes an operation for 20 s the case is a violation with the goroutine dump as witness; " +
+			"two restores at once: from state C two callers restore the snapshots of states A and B through readers that wait for each other half way; afterwards the database is A or B in full (every key, every value, the marker), neither call panicked, no temporary file of a restore is left, a write afterwards works; restore listeners are independent: a listener that waits (bounded, 10 s) for another listener to have been called finds it called; each restore calls each listener once; " +
 			"all clients log call/return, and porcupine checks the history against a register model (write(g) sets, restore(g_s) sets to the snapshot's generation, read returns the current one). non-trivial = distinct (route, restore call, history digest) and reads overlapping a restore",
 		Assumptions: []string{"interleavings are sampled",
 			"a porcupine timeout is inconclusive"},
 		MaxWorkers: 6,
 		Plan: func(tier core.Tier, seed int64) int {
 			if tier == core.Thorough {
-				return 300 + 40
+				return 300 + 40 + 4*c17TwoCases
 			}
-			return 36 + 6
+			return 36 + 6 + c17TwoCases
 		},
 		Run: func(c *core.Ctx, idx int) {
 			nSeq := 36
 			if c.Tier == core.Thorough {
 				nSeq = 300
 			}
+			nConc := 6
+			if c.Tier == core.Thorough {
+				nConc = 40
+			}
 			if idx < nSeq {
 				c17Sequential(c, idx)
+			} else if idx >= nSeq+nConc {
+				c17TwoRestores(c, idx-nSeq-nConc)
 			} else {
 				c17Concurrent(c, idx)
 			}
@@ -58,7 +65,7 @@ func init() {
 				"timeline_after_restore": {"round 0, start initialised", "round 0, start never requested", "round 0, start default on empty", "round 1, start never requested", "failing id function first", "two concurrent requests"}}
 		},
 		MinCounters: func(core.Tier) map[string]int64 {
-			return map[string]int64{"restores_sequential": 30, "reads_overlapping_a_restore": 20, "restores_concurrent": 30, "root_bucket_in_tx": 500, "snapshots_overlapping_a_restore": 10}
+			return map[string]int64{"restores_sequential": 30, "reads_overlapping_a_restore": 20, "restores_concurrent": 30, "root_bucket_in_tx": 500, "snapshots_overlapping_a_restore": 10, "pairs_of_restores_inside_the_call_together": 4}
 		},
 		WorkerTimeoutS: func(core.Tier) int { return 2400 },
 	})
